@@ -119,7 +119,8 @@ ClsReq(m) == [kind |-> "request", name |-> m]
 ClsResp(m) == [kind |-> "response", name |-> m]
 ClsNot(m) == [kind |-> "notification", name |-> m]
 ClsAnd(m) == [kind |-> "and", name |-> m]          \* the params `and` type of method m
-ClsLit(id) == [kind |-> "literal", name |-> id]
+\* an anonymous literal type is its own class: the reference carries the property list
+ClsLitOf(t) == [kind |-> "literal", name |-> "(anonymous)", props |-> t.value.properties]
 
 MsgDef(m) == IF m \in ReqM THEN ReqDef[m] ELSE NotDef[m]
 
@@ -132,6 +133,7 @@ PropsOf(c) == CASE c.kind = "structure"    -> FlatM[c.name]
                 [] c.kind = "request"      -> RequestProps(c.name)
                 [] c.kind = "response"     -> ResponseProps(c.name)
                 [] c.kind = "notification" -> NotificationProps(c.name)
+                [] c.kind = "literal"      -> c.props
                 [] c.kind = "and"          -> AndProps(MsgDef(c.name).params.items)
 
 \* Special in the envelope sense: a response's result is always written.
